@@ -69,6 +69,27 @@ var MaterialPool = func() []*modeling.Material {
 	return p
 }()
 
+// SpacedMaterials are materials whose names contain spaces (like the library's own "Default Diffuse"),
+// kept apart from MaterialPool because the OBJ/MTL text formats strip spaces from names.
+var SpacedMaterials = []*modeling.Material{{Name: "Default Diffuse"}, {Name: "mat with  spaces"}}
+
+// SpecialVal: like DefaultVal but with a share of NaN, infinities, negative zero and extreme magnitudes.
+func SpecialVal() *rapid.Generator[float64] {
+	return rapid.Custom(func(t *rapid.T) float64 {
+		switch rapid.IntRange(0, 11).Draw(t, "sk") {
+		case 0:
+			return math.NaN()
+		case 1:
+			return math.Inf(1 - 2*rapid.IntRange(0, 1).Draw(t, "isg"))
+		case 2:
+			return math.Copysign(0, -1)
+		case 3:
+			return []float64{1e300, -1e300, 5e-324, 1e-310}[rapid.IntRange(0, 3).Draw(t, "ext")]
+		}
+		return float64(rapid.IntRange(-32, 32).Draw(t, "v8")) / 8
+	})
+}
+
 func (d MeshDesc) Topology() modeling.Topology { return modeling.Topology(d.Topo) }
 
 // Build constructs the mesh through the public API from fresh arrays (never shared between
